@@ -134,43 +134,24 @@ Proof.
   apply ctrl_none_preserved; [exact H | reflexivity].
 Qed.
 
-(** Setting a split before rollout targets exist is rejected and changes nothing. *)
+(** Setting a split before rollout targets exist is rejected and changes
+    nothing — whatever else happened before, restarts included. *)
 Theorem c10_set_requires_targets : forall id cmds p allow,
-  existsb is_rollout_deploy cmds = false -> existsb is_restart cmds = false ->
+  existsb is_rollout_deploy cmds = false ->
   let s := fst (hrun (init_svc id) cmds) in
   hstep s (HSet p allow) = (s, OErrNoRollout).
 Proof.
-  intros id cmds p allow Hd Hr s. apply set_without_slot.
-  apply slot_none_preserved; [exact Hd | exact Hr | reflexivity].
+  intros id cmds p allow Hd s. apply set_without_slot.
+  apply slot_none_preserved; [exact Hd | reflexivity].
 Qed.
 
-(** On every history of deploy / rollout deploy / set / stop / requests the
-    model behaves as the property reads it. *)
+(** On every history of deploy / rollout deploy / set / stop / restart /
+    requests the model behaves as the property reads it ([spec_run]: rollout
+    targets exist once a rollout deploy succeeded, a split is in force from an
+    accepted set until stop, a restart changes nothing). *)
 Theorem c10_history : forall id cmds,
-  existsb is_restart cmds = false ->
   snd (hrun (init_svc id) cmds) = snd (spec_run (init_spec id) cmds).
-Proof. intros id cmds H. apply run_related; [apply init_related | exact H]. Qed.
-
-(** The full statement includes restarts, and there the pinned code (of which
-    the model is a faithful copy: UnmarshalJSON always builds a rollout
-    balancer) departs from the property: after a restart [rollout set] is
-    accepted without rollout targets and opted-in requests get 503. *)
-Definition c10_history_full : Prop :=
-  forall id cmds, snd (hrun (init_svc id) cmds) = snd (spec_run (init_spec id) cmds).
-
-Definition d6_witness : list hcmd :=
-  [HRestart; HSet 100 []; HRequest [bs "kamal-rollout=x"]].
-
-Lemma c10_refuted_restart_D6 :
-  snd (hrun (init_svc 0) d6_witness) = [OOk; OOk; OUnavailable] /\
-  snd (spec_run (init_spec 0) d6_witness) = [OOk; OErrNoRollout; OServed 0].
-Proof. vm_compute. split; reflexivity. Qed.
-
-Lemma c10_history_full_refuted : ~ c10_history_full.
-Proof.
-  intros H. specialize (H 0%nat d6_witness).
-  destruct c10_refuted_restart_D6 as [H1 H2]. rewrite H1, H2 in H. discriminate.
-Qed.
+Proof. intros id cmds. apply run_related. apply init_related. Qed.
 
 (** Non-vacuity and concrete points. *)
 
@@ -213,8 +194,17 @@ Example c10_example_history :
   snd (hrun (init_svc 1)
     [HSet 100 []; HRequest [bs "kamal-rollout=x"]; HRolloutDeploy 2; HRequest [bs "kamal-rollout=x"];
      HSet 100 []; HRequest [bs "kamal-rollout=x"]; HRequest []; HDeploy 3; HRequest [];
-     HRequest [bs "kamal-rollout=x"]; HStop; HRequest [bs "kamal-rollout=x"]]) =
-  [OErrNoRollout; OServed 1; OOk; OServed 1; OOk; OServed 2; OServed 1; OOk; OServed 3; OServed 2; OOk; OServed 3].
+     HRequest [bs "kamal-rollout=x"]; HRestart; HRequest [bs "kamal-rollout=x"]; HStop;
+     HRequest [bs "kamal-rollout=x"]; HRestart; HRequest [bs "kamal-rollout=x"]]) =
+  [OErrNoRollout; OServed 1; OOk; OServed 1; OOk; OServed 2; OServed 1; OOk; OServed 3; OServed 2; OOk; OServed 2;
+   OOk; OServed 3; OOk; OServed 3].
+
+(** A restart without rollout targets leaves [rollout set] rejected (the
+    pinned tree accepted it: finding D6, repaired in /repo by d6a34a4). *)
+Example c10_example_restart_then_set :
+  snd (hrun (init_svc 0) [HRestart; HSet 100 []; HRequest [bs "kamal-rollout=x"]]) =
+  [OOk; OErrNoRollout; OServed 0].
+Proof. vm_compute. reflexivity. Qed.
 Proof. vm_compute. reflexivity. Qed.
 
 Print Assumptions c10_exact.
@@ -236,4 +226,3 @@ Print Assumptions c10_never_set_active.
 Print Assumptions c10_after_stop_active.
 Print Assumptions c10_set_requires_targets.
 Print Assumptions c10_history.
-Print Assumptions c10_history_full_refuted.
